@@ -66,3 +66,27 @@ Example C09_ex :
      SObj (Tpl "__H" None None false [("f0", FLitInt 1)] [])] []) 1
   = Ok [("B", [("id", OInt 1); ("f1", OInt 7)]); ("A", [("id", OInt 1); ("f0", OInt 6)])].
 Proof. vm_compute. reflexivity. Qed.
+
+(* ---- a hidden TABLE is computed exactly like a visible one (proofs/HiddenRowsP.v) ---- *)
+From SFV.P Require Import IdsP HiddenRowsP.
+
+(* For every table, hidden or not, the rows created by a run (fresh or continued) of any recipe of
+   the fragment carry exactly the next block of ids of that table, each once: ids, counts and
+   whatever depends on them do not notice that the table is hidden. *)
+Theorem C09_every_table_rows_created_dense :
+  forall e stmts c k s0 s,
+    start_ok s0 -> iterations k e stmts c s0 = Ok s ->
+    forall T, Permutation.Permutation
+                (cell_ids T (skipn (length (heap s0)) (heap s)))
+                (Zseq (last_id s0 T + 1) (Z.to_nat (last_id s T - last_id s0 T))).
+Proof. exact cells_dense_run. Qed.
+Print Assumptions C09_every_table_rows_created_dense.
+
+(* A hidden table's rows are all created (as many as its counter advances) and none is written. *)
+Theorem C09_hidden_rows_created_not_written :
+  forall e stmts c k s0 s T,
+    start_ok s0 -> iterations k e stmts c s0 = Ok s -> hidden T = true ->
+    Z.of_nat (length (cell_ids T (skipn (length (heap s0)) (heap s)))) = last_id s T - last_id s0 T /\
+    forall row, In row (out s) -> fst row <> T.
+Proof. exact hidden_rows_created_not_written. Qed.
+Print Assumptions C09_hidden_rows_created_not_written.
